@@ -41,7 +41,12 @@ template <class T, class SizeType, typename std::enable_if<!amc::is_trivially_re
 inline void shift_right(T *first, SizeType n) noexcept(is_shift_nothrow<T>::value) {
   T *last = first + n;
   amc::construct_at(last, std::move(*(last - 1)));
-  std::move_backward(first, last - 1, last);
+  try {
+    std::move_backward(first, last - 1, last);
+  } catch (...) {
+    amc::destroy_at(last);  // the size does not count it yet
+    throw;
+  }
 }
 
 /// Specialization for trivially relocatable types. Just use memmove here.
@@ -58,7 +63,12 @@ void shift_right(T *first, SizeType n, SizeType count) noexcept(is_shift_nothrow
   if (count < n) {
     T *last = first + n;
     amc::uninitialized_move_n(last - count, count, last);  // move last 'count' elems to uninitialized storage
-    std::move_backward(first, last - count, last);         // move remaining 'n - count' elems to initialized storage
+    try {
+      std::move_backward(first, last - count, last);  // move remaining 'n - count' elems to initialized storage
+    } catch (...) {
+      amc::destroy_n(last, count);  // the size does not count them yet
+      throw;
+    }
   } else {
     // no overlap, we shift all elements to uninitialized memory
     amc::uninitialized_move_n(first, n, first + count);
